@@ -4,10 +4,12 @@ The only state that survives an interruption is the target file.  The model of t
 initial target as an ARBITRARY byte string, and every theorem of C04 / C05 / C09 quantifies over it — so each holds of
 the restart, whatever point the interruption hit (inside the header, inside a chunk, inside a multipart part header), and
 by iteration of any number of interruptions.  This file states the corollaries for crash states explicitly.
-PARTIAL (as C04): convergence to B (completeness of a round with an honest server) is checked, not proved.
+Convergence (`restart_converges`, from C04's `loop_complete`): with well-formed responses the restart's fetch loop ends without
+error and with every chunk valid, from ANY crash state; with `update_yields_B` the file is then B or a collision is exhibited.
 -/
 import ZckModel.Props.C04
 import ZckModel.Props.C09
+import ZckModel.Props.C04Complete
 
 namespace Zck.C11
 open Zck Zck.Format Zck.Dl Zck.Copy Zck.C05 Zck.C04 Zck.Update
@@ -50,6 +52,27 @@ theorem scan_trusts_only_complete (H : HashFn) (f : Bytes) (hdr : Hdr) (ch : Chu
     Reader.scanValue H hdr ch (Reader.readPieces f pos ch.compLen).1 (Reader.readPieces f pos ch.compLen).2.2 = 1
     ↔ ((Reader.fileRead f pos ch.compLen).length = ch.compLen ∧ (if ch.compLen = 0 then zeros d.length else d) = ch.digest) :=
   C09.scan_value_exact H f hdr ch pos d hd
+
+/-- **the restart converges, whatever the interruption left**: from the crash state of an arbitrary write trace, cut anywhere,
+with marks as scan + copy + reset leave them (`Marks`) and well-formed responses (`Honest`), the restart's fetch loop ends
+WITHOUT error and with EVERY chunk marked valid, and every chunk marked valid is present (hashes to its checksum at its extent)
+— so by `equal_or_collision` the truncated target is the server's file or a collision is exhibited -/
+theorem restart_converges (H : HashFn) (rx : Rx) (B : Bytes) (th : Hdr) (limit : Int) (frag : Nat)
+    (hrun : C13.RunFrom 0 0 th.chunks) (hbound : th.lead + th.headerLen + C13.sumLen th.chunks < 2^64)
+    (hBsmall : B.length < W64) (hB : AllPresent (envOf H rx th []) B)
+    (hon : ∀ n valid', Marks th valid' → Honest rx (n + 1) B.length (reqOf th limit valid').items)
+    (tgt0 : Bytes) (ws : List (Nat × Bytes)) (k j : Nat) (valid : List Int) (hm : Marks th valid)
+    (hok : AllOk (envOf H rx th []) (crash tgt0 ws k j) valid) :
+    let out := Update.loop H rx B th limit frag none (th.chunks.length + 3) (crash tgt0 ws k j) valid [] 0
+    out.2.2.2.2 = none ∧ countEq out.2.1 0 = 0 ∧ Marks th out.2.1 ∧ AllOk (envOf H rx th []) out.1 out.2.1 := by
+  intro out
+  have hfuel : countEq valid 0 < th.chunks.length + 3 := by
+    have := countEq_le_length valid 0
+    rw [hm.len] at this
+    omega
+  have h1 := loop_complete H rx B th limit frag hrun hbound hBsmall hB hon (th.chunks.length + 3) (crash tgt0 ws k j) valid [] 0 hm hfuel
+  have h2 := loop_sound H rx B th limit frag none (disj_of_runFrom _ hrun) (th.chunks.length + 3) (crash tgt0 ws k j) valid [] 0 hok
+  exact ⟨h1.1, h1.2.2, h1.2.1, h2.1⟩
 
 /-- TEST: a trace of two writes cut inside the second -/
 example : crash [0, 0, 0, 0, 0, 0] [(0, [1, 2]), (2, [3, 4, 5])] 1 2 = [1, 2, 3, 4, 0, 0] := by decide
